@@ -225,3 +225,19 @@ def word_policy(word):
                 return t
         return st["runnable"][0]
     return policy
+
+
+def two_preempt_policy(order, first, j1, second, j2):
+    """Preemption bound 2: `first` runs j1 steps, `second` runs j2 steps, then `first` runs as far as it can,
+    then `second`, then whatever is left."""
+    def policy(st):
+        if st["steps"][first] < j1 and first in st["runnable"]:
+            return first
+        if st["steps"][second] < j2 and second in st["runnable"]:
+            return second
+        if first in st["runnable"]:
+            return first
+        if second in st["runnable"]:
+            return second
+        return st["runnable"][0]
+    return policy
